@@ -9,8 +9,9 @@
     * `assuan_read_no_panic`       — `Conn.read` / `Conn.Transact` return a response, an error, or block: never a panic.
     * `csexp_parse_total`          — `parseCsExp` returns a tree or InvalidCsExp on every blob (no slice out of range, no
       exhausted loop); `scd_public_total`: so does the walk of `ScdKey.Public` over the tree.
-    * `scd_client_panics_only_in_getkey` — Learn, CheckPin, Open/login, Sign, ListKeys never panic against any daemon; GetKey
-      panics EXACTLY when the configured id matches no key info (nil dereference, finding F-SCD-1: `scd_client_no_panic_full_false`).
+    * `scd_client_no_panic` — (the code as it is) Learn, CheckPin, Open/login, GetKey, Sign, ListKeys never panic against any daemon.
+      `scd_client_panics_only_in_getkey_orig`: before e11c4f9 GetKey panicked EXACTLY when the configured id matched no key info
+      (nil dereference, finding F-SCD-1, fixed; `scd_client_no_panic_orig_full_false`).
     * `assuan_read_returns_when_daemon_closed` — once the daemon has ended its output the reader returns; it can block only on a
       daemon that stays silent with the connection open — and then it does, for ever (no deadline, context ignored: finding
       F-SCD-3, `assuan_read_blocks_on_silent_daemon`).
@@ -66,15 +67,21 @@ example : csIsInvalid (parseCsExp (ascii "(18446744073709551615:a)")) = true ∧
 theorem scd_public_total (blob : Bytes) : (publicOfBlob blob).isPanic = false ∧ (publicOfBlob blob).isBlock = false :=
   publicOfBlob_clean blob
 
-/-- **scd_client_panics_only_in_getkey.**  Against ANY daemon: Open (Dial, Learn, CheckPin, the login loop), Sign and ListKeys
-    never panic, and GetKey panics exactly when the configured id matches no key info learnt from the token. -/
-theorem scd_client_panics_only_in_getkey {σ} (dm : Daemon σ) :
+/-- **scd_client_no_panic** (the code as it is).  Against ANY daemon, from any token state: Open (Dial, Learn, CheckPin, the login
+    loop), GetKey, Sign and ListKeys return a value, an error, or block on a silent daemon — never a panic. -/
+theorem scd_client_no_panic {σ} (dm : Daemon σ) :
     (∀ s0 tc, (openToken dm s0 tc).2.isPanic = false) ∧
+    (∀ (t : Token σ) name, (getKey dm t name).2.isPanic = false) ∧
     (∀ (t : Token σ) k d o, (keySign dm t k d o).2.isPanic = false) ∧
-    (∀ (t : Token σ) id v, (listKeys dm t id v).2.isPanic = false) ∧
-    (∀ (t : Token σ) name, (getKey dm t name).2.isPanic = true ↔
-        ∃ kc, t.conf.keys.find? (·.name = name) = some kc ∧ findKey t.keyInfos kc.id = none) :=
-  ⟨openToken_no_panic dm, keySign_no_panic dm, listKeys_no_panic dm, getKey_panic_iff dm⟩
+    (∀ (t : Token σ) id v, (listKeys dm t id v).2.isPanic = false) :=
+  ⟨openToken_no_panic dm, getKey_no_panic dm, keySign_no_panic dm, listKeys_no_panic dm⟩
+
+/-- **scd_client_panics_only_in_getkey_orig** (the code before e11c4f9): the one panic of the client was GetKey's, exactly when the
+    configured id matched no key info learnt from the token -/
+theorem scd_client_panics_only_in_getkey_orig {σ} (dm : Daemon σ) (t : Token σ) (name : String) :
+    (getKeyOrig dm t name).2.isPanic = true ↔
+        ∃ kc, t.conf.keys.find? (·.name = name) = some kc ∧ findKey t.keyInfos kc.id = none :=
+  getKeyOrig_panic_iff dm t name
 
 /-! ### witnesses on a scripted daemon -/
 
@@ -86,22 +93,22 @@ def scdLearnOK : Bytes × Bool := (ascii "S SERIALNO D276\nS KEYPAIRINFO G1 OPEN
 def scdPinOK : Bytes × Bool := (ascii "INQUIRE NEEDPIN\nOK\n", false)
 def scdKeyOK : Bytes × Bool := (ascii "D (10:public-key(3:rsa(1:n2:%C3%01)(1:e3:%01%00%01)))\nOK\n", false)
 
-/-- the full statement "no client entry point panics on any daemon output" -/
-def scd_client_no_panic_full : Prop := ∀ (t : Token Script) (name : String), (getKey scripted t name).2.isPanic = false
+/-- the statement "no client entry point panics on any daemon output" for the code BEFORE e11c4f9 -/
+def scd_client_no_panic_orig_full : Prop := ∀ (t : Token Script) (name : String), (getKeyOrig scripted t name).2.isPanic = false
 
 def scdPanicSite {α} : Out α → Option String
   | .panic s => some s
   | _ => none
 
-/-- refuted: a key configured with an id the token does not have (finding F-SCD-1) -/
-theorem scd_getkey_nil_deref_c11 :
+/-- refuted: a key configured with an id the token does not have (finding F-SCD-1, fixed) -/
+theorem scd_getkey_nil_deref_c11_orig :
     (match openToken scripted ⟨[scdGreetOK, scdLearnOK, scdPinOK]⟩ scdTcDemo with
-     | (_, .ok t) => scdPanicSite (getKey scripted t "k9").2
+     | (_, .ok t) => scdPanicSite (getKeyOrig scripted t "k9").2
      | _ => none) = some "scdtoken.GetKey:key.KeyId (nil key)" := by decide +kernel
 
-theorem scd_client_no_panic_full_false : ¬ scd_client_no_panic_full := by
+theorem scd_client_no_panic_orig_full_false : ¬ scd_client_no_panic_orig_full := by
   intro h
-  have hw := scd_getkey_nil_deref_c11
+  have hw := scd_getkey_nil_deref_c11_orig
   cases ho : openToken scripted ⟨[scdGreetOK, scdLearnOK, scdPinOK]⟩ scdTcDemo with
   | mk s o =>
     rw [ho] at hw
@@ -109,7 +116,7 @@ theorem scd_client_no_panic_full_false : ¬ scd_client_no_panic_full := by
     | ok t =>
       have := h t "k9"
       simp only at hw
-      cases hg : (getKey scripted t "k9").2 with
+      cases hg : (getKeyOrig scripted t "k9").2 with
       | panic x => rw [hg] at this; simp [Out.isPanic] at this
       | ok _ => rw [hg] at hw; simp [scdPanicSite] at hw
       | fail _ => rw [hg] at hw; simp [scdPanicSite] at hw
